@@ -481,6 +481,9 @@ class Interp(object):
             return self._symbolic_assign(ast.copy_location(ast.Assign(targets=st.targets, value=chosen), st), state, trace)
         value2 = fold_consts(self.subst(value, state))
         if self.pure(value2):
+            if any(isinstance(x, ast.Name) and x.id == name for x in ast.walk(value2)):
+                # x = f(x): the x inside stands for the value x had before (a parameter or an outer binding)
+                value2 = normal._Rename({name: name + '__0'}).visit(normal.clone(value2))
             self.kill([name], state)
             state.setdefault('senv', {})[name] = value2
             return True
@@ -714,6 +717,18 @@ def _beta(node):
                     return normal._Subst(dict(zip(names, n.args))).visit(normal.clone(f.body))
             return n
     return B().visit(node)
+
+
+def strip0(node):
+    '''expression with the markers of "value before the re-binding" (name__0) removed: for rules that do not distinguish a
+    parameter from its re-bound self'''
+    if node is None:
+        return None
+    new = normal.clone(node)
+    for n in ast.walk(new):
+        if isinstance(n, ast.Name) and n.id.endswith('__0'):
+            n.id = n.id[:-3]
+    return new
 
 
 def fold_consts(node):
